@@ -37,3 +37,99 @@ def replay_fallback(inputs, obl):
     if problems:
         return dict(confirmed=True, detail='; '.join(problems[:3]))
     return dict(confirmed=False, detail='compiled and interpreted runs agree on the scripted programs')
+
+
+def replay_values(inputs, obl):
+    """compiled vs interpreted value of one production over a universe of bindings (scalars, empty, rank 1, rank 2, nested):
+    structure, elements and integer/real kind must agree; :undefined or an error on one side must be :undefined or an error on the other"""
+    import numpy as np
+    import klongpy.interpreter as ki
+    from klongpy import KlongInterpreter
+    prod = (inputs or {}).get('production', '')
+    kind, _, op = prod.partition(' ')
+    binds = {'int': '3', 'zero': '0', 'real': '2.5', 'creal': '7%2', 'empty': '[]', 'ivec': '[1 2 3]', 'rvec': '[1.5 2.5]', 'one': '[4]',
+             'mat': '[[1 5] [3 2]]', 'rmat': '[[1.5 2.0] [0.5 4.0]]', 'four': '4', 'half': '0.5', 'csum': '+/[1.5 2.5]'}
+    if kind == 'reduce':
+        exprs = [(f"a::{binds[b]}", f"{op}/a") for b in ('int', 'empty', 'ivec', 'rvec', 'one', 'mat', 'rmat')]
+    elif kind == 'scan':
+        exprs = [(f"a::{binds[b]}", f"{op}\\a") for b in ('int', 'empty', 'ivec', 'rvec', 'one', 'mat', 'rmat')]
+    elif kind == 'binop':
+        exprs = [(f"a::{binds[x]};b::{binds[y]}", f"a{op}b") for x in ('int', 'real', 'four', 'ivec', 'mat', 'creal', 'csum') for y in ('int', 'zero', 'half', 'ivec', 'real')
+                 if not (x in ('ivec',) and y == 'ivec' and False)]
+    elif kind == 'negate':
+        exprs = [(f"a::{binds[b]}", "-a") for b in ('int', 'real', 'ivec', 'mat')]
+    else:   # admission
+        exprs = [(f"a::{binds[x]};b::{binds[y]}", e) for x in ('creal', 'csum', 'int') for y in ('zero', 'int') for e in ('a%b', 'a^2', 'a+b')]
+
+    def canon(v):
+        if isinstance(v, np.ndarray):
+            return ('arr', v.dtype.kind if v.dtype.kind in 'if' else 'o', v.shape, [canon(x) for x in v.tolist()] if v.dtype == object else np.round(v.astype(float), 9).tolist())
+        if isinstance(v, (bool, np.bool_)):
+            return ('int', int(v))
+        if isinstance(v, (int, np.integer)):
+            return ('int', int(v))
+        if isinstance(v, (float, np.floating)):
+            return ('real', 'nan' if v != v else round(float(v), 9))
+        if isinstance(v, list):
+            return ('list', [canon(x) for x in v])
+        return ('other', repr(v))
+
+    def run(setup, ex, stub):
+        real = ki.compile_expr
+        try:
+            if stub:
+                ki.compile_expr = lambda *a, **kw: None
+            k = KlongInterpreter()
+            k(setup)
+            try:
+                v = k(ex)
+            except Exception as e:
+                return ('undefined-or-error',)
+            from klongpy.core import KLONG_UNDEFINED
+            if v is KLONG_UNDEFINED:
+                return ('undefined-or-error',)
+            return canon(v)
+        finally:
+            ki.compile_expr = real
+    problems = []
+    for setup, ex in exprs:
+        c, i = run(setup, ex, False), run(setup, ex, True)
+        if c != i:
+            problems.append(f"{setup};{ex}: compiled {c} vs interpreted {i}")
+    if problems:
+        return dict(confirmed=True, detail='; '.join(problems[:3]), count=len(problems))
+    return dict(confirmed=False, detail=f"compiled and interpreted values agree on {len(exprs)} bindings of production {prod!r}")
+
+
+def replay_rebinding(inputs, obl):
+    """rebinding by a program (::) between two evaluations of the same text: compiled and interpreted runs must agree"""
+    import klongpy.interpreter as ki
+    from klongpy import KlongInterpreter
+    from klongpy.core import KLONG_UNDEFINED
+    hist = [['a::3', 'a%0', 'a::7%2', 'a%0'], ['a::[1 2 3]', 'a^2', 'a::+/[1.5 2.5]', 'a^2'], ['a::3', 'a*2', 'a::"ab"', 'a*2'],
+            ['a::6;b::3', 'a%b', 'b::+/[0 0]', 'a%b'], ['s::2;n::3', 's*n', 's::"ab"', 's*n'], ['a::[1 2]', '+/a', 'a::[]', '+/a']]
+
+    def run(h, stub):
+        real = ki.compile_expr
+        try:
+            if stub:
+                ki.compile_expr = lambda *a, **kw: None
+            k = KlongInterpreter()
+            out = []
+            for t in h:
+                try:
+                    v = k(t)
+                    out.append('undefined-or-error' if v is KLONG_UNDEFINED else repr(v.tolist() if hasattr(v, 'tolist') else v) + ':' + type(v).__name__.replace('int64', 'int').replace('float64', 'float'))
+                except Exception:
+                    out.append('undefined-or-error')
+            return out
+        finally:
+            ki.compile_expr = real
+    problems = []
+    for h in hist:
+        c, i = run(h, False), run(h, True)
+        if c != i:
+            problems.append(f"{';'.join(h)}: compiled {c[-1]} vs interpreted {i[-1]}")
+    if problems:
+        return dict(confirmed=True, detail='; '.join(problems[:3]))
+    return dict(confirmed=False, detail='rebinding histories give the same results compiled and interpreted')
